@@ -10,6 +10,16 @@ CLAIMS = {
             "design_ref": "DESIGN.md §5 C01", "note": _NOTE, "technique": "Coq proof (invariant by induction over operations) + model/implementation correspondence by vm_compute replay"},
     "C12": {"text": "Coq invariant wf_task for every task of every reachable state of the specification and every returned task; the predicate p_C12 is evaluated on everything both implementations return or store.",
             "design_ref": "DESIGN.md §5 C12", "note": _NOTE, "technique": "Coq proof (reachable-state invariant) + correspondence"},
+    "C02": {"text": "Coq theorems: GetNext of the specification returns a stored scheduled task that no scheduled task precedes in (time, priority desc, creation time), FIFO by first-minimum; exhausted iff nothing scheduled; for every state hence after every history. The in-memory heap and the SQL ORDER BY are tied to it by differential execution with tie-heavy generators, a GetNext probe after every operation and a final drain.",
+            "design_ref": "DESIGN.md §5 C02", "note": _NOTE, "technique": "Coq proof (strict weak order, minimum by induction) + correspondence"},
+    "C11": {"text": "Coq theorems: prefix/suffix/substring matchers meet their declarative rules, the offset/limit counter loop equals a contiguous window of the filtered list, sort by creation time is a sorted permutation and the identity under a monotone clock, both configurations agree under the documented rules; the faithful ent model (SQLite LIKE) is proved NOT to agree (C11_impls_agree_refuted, known finding F4).",
+            "design_ref": "DESIGN.md §5 C11", "note": _NOTE, "technique": "Coq proof (algebraic laws, list induction, refutation witness) + correspondence on both repositories"},
+    "C13": {"text": "Coq theorems on the sequential part: RevertDispatched/CancelDispatched change exactly the dispatched-unfinished tasks; dispatch followed by revert restores the repository exactly, so every continuation behaves identically. PARTIAL: crash durability is SQLite's and is only exercised (process kills), not proved.",
+            "design_ref": "DESIGN.md §5 C13", "note": _NOTE + " Partial: SQLite durability/atomicity assumed.", "technique": "Coq proof (algebraic law + reuse of sequential theorems) + correspondence incl. recovery operations"},
+    "C14": {"text": "Coq theorems at specification level (Load(Save s) = s, identical outputs for every continuation, invalid snapshot rejected without change) + lock-step differential run of the original and the restored repository (with and without JSON round trip), both against the model.",
+            "design_ref": "DESIGN.md §5 C14", "note": _NOTE, "technique": "Coq proof (round-trip law) + lock-step correspondence"},
+    "C19": {"text": "The model is a function of immutable values, so non-interference is by construction; the theorem shows the model never manufactures the scribble marker, which makes the detector sound; the correspondence is re-run while the harness overwrites every map reachable from every argument and result.",
+            "design_ref": "DESIGN.md §5 C19", "note": _NOTE, "technique": "Coq proof (marker-freeness invariant) + correspondence under scribbling"},
 }
 _later = "model and correspondence harness not built yet in this session (in progress; see DESIGN.md §9 staging order)"
 NOT_APPLICABLE = {("C%02d" % i): _later for i in range(1, 21)}
